@@ -514,5 +514,114 @@ def directed(disagreements):
     return out
 
 
+class SourceListingOrder(Stream):
+    """"the order in which a ... source tree lists its entries": a --source tree whose project has sub-directories of all
+    kinds (test directories - several of them, next to one another in some listings - fixtures, vendored helpers), some of
+    them holding a project of the name the compile needs at a version of their own; the real command line is run with
+    os.walk presenting every directory's entries in several orders: the output must be the same text each time"""
+    name = "source-listing-order"
+    quick_n = 30
+    thorough_n = 1500
+    batch = 6
+    parallel_quick = 5
+
+    SUBS = ["tests", "test", "app-tests", "x-test", "integration-tests", "fixtures", "helper", "lib", "docs", "examples"]
+
+    def setup(self):
+        self.tmp = tempfile.mkdtemp(prefix="rvc07s")
+
+    def teardown(self):
+        shutil.rmtree(getattr(self, "tmp", ""), ignore_errors=True)
+
+    def generate(self, rng):
+        subs = []
+        for i, n in enumerate(rng.sample(self.SUBS, rng.randint(2, 6))):
+            holds = rng.random() < 0.75
+            subs.append({"name": n, "project": {"name": rng.choice(["helper", "helper", "Helper", "other"]), "version": "%d.%d" % (rng.randint(1, 9), i)} if holds else None,
+                         "nested": rng.random() < 0.5})
+        return {"subs": subs, "sibling": rng.random() < 0.6, "orders": [rng.randint(1, 10 ** 6) for _ in range(3)]}
+
+    def impl(self, case):
+        import contextlib
+        import functools
+        import io
+        import req_compile.cmdline as C
+        from rv.core import digest
+        d = os.path.join(self.tmp, digest(case))
+        shutil.rmtree(d, ignore_errors=True)
+        tree = os.path.join(d, "tree")
+        B.write_source_project(os.path.join(tree, "app"), "app", "1.0", requires=["helper"])
+        for s in case["subs"]:
+            sd = os.path.join(tree, "app", s["name"])
+            os.makedirs(sd, exist_ok=True)
+            if s["project"]:
+                B.write_source_project(os.path.join(sd, "fixture") if s["nested"] else sd, s["project"]["name"], s["project"]["version"])
+        if case["sibling"]:
+            B.write_source_project(os.path.join(tree, "helper-main"), "helper", "1.0")
+        B.write_findlinks(os.path.join(d, "links"), {B.wheel_name("helper", "0.5"): B.wheel_bytes("helper", "0.5")})
+        with open(os.path.join(d, "in0.txt"), "w") as f:
+            f.write("app\n")
+        orig_walk = os.walk
+
+        def run(order):
+            def walk(top, *a, **kw):
+                for root, dirs, files in orig_walk(top, *a, **kw):
+                    if order == "sorted":
+                        dirs.sort()
+                    elif order == "reversed":
+                        dirs.sort(reverse=True)
+                    else:
+                        dirs.sort()
+                        random.Random("%s/%s" % (order, root[len(d):])).shuffle(dirs)
+                        random.Random("%s/%s" % (order, root[len(d):])).shuffle(files)
+                    yield root, dirs, files
+            GL.reset_caches()
+            out, err = io.StringIO(), io.StringIO()
+            old = os.getcwd()
+            os.chdir(d)
+            os.walk = walk
+            orig_write = C.write_requirements_file
+            C.write_requirements_file = functools.partial(orig_write, write_to=out)
+            code = 0
+            try:
+                with contextlib.redirect_stdout(out), contextlib.redirect_stderr(err):
+                    try:
+                        C.compile_main(["in0.txt", "--source", "tree", "--find-links", "links", "--no-index"])
+                    except SystemExit as ex:
+                        code = ex.code if isinstance(ex.code, int) else 1
+                    except BaseException as ex:
+                        code = "raise:" + type(ex).__name__
+            finally:
+                C.write_requirements_file = orig_write
+                os.walk = orig_walk
+                os.chdir(old)
+            return {"code": code, "stdout": out.getvalue()}
+        outs = {str(o): run(o) for o in ["sorted", "reversed"] + list(case["orders"])}
+        shutil.rmtree(d, ignore_errors=True)
+        return {"outs": outs}
+
+    def flags(self, case, r):
+        fl = ["exit:%s" % r["outs"]["sorted"]["code"]]
+        tests = [s for s in case["subs"] if s["name"] in ("tests", "test") or s["name"].endswith(("-tests", "-test"))]
+        if len(tests) >= 2:
+            fl.append("several-test-directories")
+        if any(s["project"] for s in tests):
+            fl.append("project-inside-a-test-directory")
+        return fl
+
+    def oracle(self, case, r):
+        base = r["outs"]["sorted"]
+        diff = sorted(k for k, o in r["outs"].items() if (o["code"], o["stdout"]) != (base["code"], base["stdout"]))
+        if diff:
+            return [("C07/source-listing-order-changes-the-output", {"orders": diff, "sorted": base["stdout"][-300:], "other": r["outs"][diff[0]]["stdout"][-300:]})]
+        return []
+
+    def shrink(self, case):
+        for i in range(len(case["subs"])):
+            yield dict(case, subs=case["subs"][:i] + case["subs"][i + 1:])
+        if case["sibling"]:
+            yield dict(case, sibling=False)
+
+
 def streams():
-    return [SortKeys(), CliVariants(), SolvePermuted(), PageOrder()]
+    return [SortKeys(), CliVariants(), SolvePermuted(), PageOrder(), SourceListingOrder()]
